@@ -152,12 +152,32 @@ pub fn candid_side(env: &REnv, ts: &[RType], names: Option<&Names>) -> (TypeEnv,
     )
 }
 
-/// Coarse, stable class of a candid error: first words without digits/hex payloads.
-pub fn err_class(e: &dyn std::fmt::Display) -> String {
-    let s = e.to_string();
-    let first = s.lines().next().unwrap_or("");
+/// Coarse, stable class of a candid error: the root cause line (anyhow chain, last entry) without
+/// digits / hex payloads / state dumps.
+pub fn err_class(e: &dyn std::fmt::Debug) -> String {
+    let s = format!("{e:?}");
+    let mut cand: Vec<String> = Vec::new();
+    for line in s.lines() {
+        let mut l = line.trim();
+        if l.is_empty() || l.starts_with("input:") || l.starts_with("table:") || l.starts_with("type table")
+            || l.starts_with("wire_type:") || l.starts_with("Caused by") || l.starts_with("Stack backtrace")
+        {
+            continue;
+        }
+        // "0: message" entries of the cause chain
+        if let Some(pos) = l.find(": ") {
+            if l[..pos].chars().all(|c| c.is_ascii_digit()) {
+                l = &l[pos + 2..];
+            }
+        }
+        if l.starts_with("input:") || l.starts_with("type ") && l.contains(" = ") {
+            continue;
+        }
+        cand.push(l.to_string());
+    }
+    let root = cand.last().cloned().unwrap_or_default();
     let mut out = String::new();
-    for w in first.split_whitespace().take(7) {
+    for w in root.split_whitespace().take(8) {
         let w: String = w.chars().filter(|c| !c.is_ascii_digit()).collect();
         if w.len() > 24 {
             continue;
